@@ -132,20 +132,3 @@ Example C08_nonvacuous :
              /\ unwrap (fun k d => adapter_decrypt toyD k None d) (zeros 16) ct = Ok [x01; x02; x00].
 Proof. eexists. split; vm_compute; reflexivity. Qed.
 Print Assumptions C08_nonvacuous.
-
-(* ---- instantiated with the bundled cipher (pyaes model of C16): no hypothesis on AES left ---- *)
-From Bec2 Require Import Model.Aes Proofs.AesProofs.
-
-Theorem C08_bundled_aes_inverse : forall k pt ct,
-  wrap (fun k d => adapter_encrypt aes_E k None d) k pt = Ok ct ->
-  unwrap (fun k d => adapter_decrypt aes_D k None d) k ct = Ok pt /\ blen ct mod 16 = 0.
-Proof. exact (C08_inverse aes_E aes_D aes_E_len aes_DE16). Qed.
-Print Assumptions C08_bundled_aes_inverse.
-
-Theorem C08_bundled_aes_custkey_roundtrip : forall k c p pt ct,
-  c <> [] -> blen c = CUSTOMER_KEY_SIZE -> p + CUSTOMER_KEY_SIZE <= blen pt ->
-  ck_wrap (fun k d => adapter_encrypt aes_E k None d) k (Some (c, p)) pt = Ok ct ->
-  ck_unwrap (fun k d => adapter_decrypt aes_D k None d) k (Some (c, p)) ct =
-    Ok (slice_assign pt p CUSTOMER_KEY_SIZE (zeros (N.to_nat CUSTOMER_KEY_SIZE))).
-Proof. exact (C08_custkey_roundtrip aes_E aes_D aes_E_len aes_DE16). Qed.
-Print Assumptions C08_bundled_aes_custkey_roundtrip.
